@@ -78,7 +78,8 @@ def sim(tag, consts, num, depth, seed):
     return traces, d
 
 
-def busy_session(ctx, T, kw, rekey_c, rekey_s, what, sig, by_time=False):
+def busy_session(ctx, T, kw, rekey_c, rekey_s, what, sig, by_time=False,
+                 change=None):
     """A live echo session with tiny re-key limits; everything observable is
     judged."""
     import asyncssh
@@ -100,6 +101,13 @@ def busy_session(ctx, T, kw, rekey_c, rekey_s, what, sig, by_time=False):
         extra['chan2'] = chan2
         lst = await conn.forward_remote_port('', 0, '127.0.0.1', 2222)
         extra['lst'] = lst
+        if change:
+            # both ends now prefer other algorithms: every later exchange
+            # negotiates them, so keys, cipher, MAC and compression all
+            # change in mid-session
+            for c in (conn, sconn):
+                for attr, val in change.items():
+                    setattr(c, attr, [v.encode() for v in val])
 
     class Srv(T.NoAuth):
         def server_requested(self, host, port):
@@ -129,6 +137,20 @@ def busy_session(ctx, T, kw, rekey_c, rekey_s, what, sig, by_time=False):
     if (rekey_c or rekey_s or by_time) and nx < 2:
         bad.append(f'no re-exchange happened (exchanges: {nx}); limits '
                    f'{rekey_c}/{rekey_s} were not honoured')
+    if change and nx >= 2:
+        first, last = klogs[0], klogs[-1]
+        want = {'_enc_algs': ('enc_cs', 'enc_sc'),
+                '_mac_algs': ('mac_cs', 'mac_sc'),
+                '_cmp_algs': ('cmp_cs', 'cmp_sc'),
+                '_kex_algs': ('kex_alg',)}
+        for attr, val in change.items():
+            for f in want[attr]:
+                got = last[f].decode() if isinstance(last[f], bytes) \
+                    else last[f]
+                if got != val[0]:
+                    bad.append(f'AlgorithmChange: after the change of '
+                               f'preferences {f} is still {last[f]!r}, '
+                               f'expected {val[0]}')
     hs = [k['h'] for k in klogs if k['side'] == 'c']
     if len(set(hs)) != len(hs):
         bad.append('EpochFresh: an exchange hash was reused')
@@ -337,6 +359,32 @@ def main(ctx):
                           'limits': [rc, rs]})
     # ---- 4. recorded executions against the spec ----
     trace_validation(ctx, rekey, quick)
+    # ---- 3b. the negotiated algorithms change between exchanges ----
+    changes = [
+        (dict(encryption_algs=['aes128-ctr'], mac_algs=['hmac-sha2-256'],
+              compression_algs=['none']),
+         dict(_enc_algs=['chacha20-poly1305@openssh.com'],
+              _cmp_algs=['zlib@openssh.com'])),
+        (dict(encryption_algs=['chacha20-poly1305@openssh.com']),
+         dict(_enc_algs=['aes256-ctr'],
+              _mac_algs=['hmac-sha2-512-etm@openssh.com'])),
+        (dict(encryption_algs=['aes128-gcm@openssh.com'],
+              compression_algs=['zlib@openssh.com']),
+         dict(_enc_algs=['aes128-cbc'], _mac_algs=['hmac-sha1'],
+              _cmp_algs=['none'])),
+        (dict(encryption_algs=['aes256-ctr'],
+              mac_algs=['umac-64-etm@openssh.com'],
+              kex_algs=['curve25519-sha256']),
+         dict(_enc_algs=['3des-cbc'], _mac_algs=['hmac-md5'],
+              _kex_algs=['diffie-hellman-group14-sha256'])),
+    ]
+    for kw, change in (changes[:3] if quick else changes):
+        for rc, rs in ((64, 0), (0, 64), (1, 1)):
+            name = f'{kw} -> {change} rekey_bytes c={rc} s={rs}'
+            busy_session(ctx, T, kw, rc, rs, name,
+                         {'module': 'RekeyLive', 'algs': str(kw),
+                          'change': str(change), 'limits': [rc, rs]},
+                         change=change)
     ctx.assumptions += [
         'replay thresholds are 0 or 1 application packet (rekey_bytes=1); '
         'larger byte limits are covered by the busy-session sweep',
